@@ -1205,7 +1205,9 @@ func verifAssume(cond bool) {}
 //@   ensures result0 != nil && fresh(result0)
 //@   ensures err == nil ==> result0.ItemType == &d.ItemType && result0.Total == d.Total
 //@   ensures err == nil ==> ite(d.Items != nil, len(result0.Items) == len(d.Items) && result0.Items != nil, result0.Items == nil)
+//@   ensures [C01,C02] @everyitemencoded forall k : err == nil && 0 <= k && k < len(d.Items) ==> result0.Items[k] != nil  ## no slot is left empty: an empty slot is written as JSON null, which every decoder refuses
 //@   loop 0 invariant 0 <= it_ && it_ <= len(d.Items)
+//@   loop 0 invariant forall k : 0 <= k && k < it_ ==> local(rawDocumentCollection).Items[k] != nil
 //@   loop 0 invariant local(rawDocumentCollection).ItemType == &d.ItemType && local(rawDocumentCollection).Total == d.Total && len(local(rawDocumentCollection).Items) == len(d.Items) && fresh(local(rawDocumentCollection).Items) && local(rawDocumentCollection).Items != nil
 //@   modifies nothing
 
